@@ -31,6 +31,9 @@ CFGS = {
                    MaxTime="0", AdminOps="FALSE", Extras="{}"),
     "same_t": dict(SamePrefix="TRUE", Outcomes='{"ok", "err"}', Returns='{"exact"}', RewardAmts="{2}", MaxBatches="2", MaxN="6", MaxSeq="4", MaxPk="3",
                    MaxTime="3", AdminOps="FALSE", Extras="{}"),
+    # a 32-byte sender (contract / hook account): refused without mint_to, served with one
+    "sender_q": dict(Users='{"c1"}', Extras='{"mintto"}', UnstakeAmts="{}", RewardAmts="{2}", Returns="{}", MaxBatches="1", MaxN="9", MaxSeq="4", MaxPk="4",
+                     MaxTime="0", AdminOps="FALSE"),
     # IBC faults: every outcome for every packet, refused submissions, permissionless and forced recovery
     "ibc_q": dict(Extras='{"stray"}', Outcomes='{"ok", "err", "timeout"}', SubmitFails="{0}", Returns='{"exact"}', UnstakeAmts="{3}",
                   RewardAmts="{}", MaxBatches="1", MaxN="6", MaxSeq="4", MaxPk="3", MaxTime="0"),
